@@ -118,13 +118,29 @@ def build_model():
     return rc == 0, out
 
 
+def harness_modfile():
+    """go build flags selecting the module file of the harness: the committed go.mod replaces the vflow module by /repo;
+    when VERIF_REPO points elsewhere (a snapshot used for background runs) an alternative module file is generated"""
+    if REPO == "/repo":
+        return []
+    alt = os.path.join(HARNESS, "go.alt.mod")
+    txt = open(os.path.join(HARNESS, "go.mod")).read().replace("=> /repo", "=> " + REPO)
+    if not os.path.exists(alt) or open(alt).read() != txt:
+        open(alt, "w").write(txt)
+    try:
+        shutil.copyfile(os.path.join(REPO, "go.sum"), os.path.join(HARNESS, "go.alt.sum"))
+    except OSError:
+        pass
+    return ["-modfile=" + alt]
+
+
 def build_impl():
     """Build the Go harness against /repo's CURRENT working tree with the verif hooks on."""
     try:
         shutil.copyfile(os.path.join(REPO, "go.sum"), os.path.join(HARNESS, "go.sum"))
     except OSError:
         pass
-    rc, out = sh(["go", "build", "-tags", "verif", "-o", "bin/impl", "./cmd/impl"], cwd=HARNESS, env=GOENV, timeout=900)
+    rc, out = sh(["go", "build"] + harness_modfile() + ["-tags", "verif", "-o", "bin/impl", "./cmd/impl"], cwd=HARNESS, env=GOENV, timeout=900)
     if rc != 0:
         return False, out
     # the in-package verif driver of package main (vflow/verif_*_test.go, build tag verif): real flagSet / workers / mirror
